@@ -323,6 +323,38 @@ def replay_history(binary, h):
                         if not any(("org:o%d," % o) in g for g in ms):
                             out["obs"].append("metrics: org %d does not see its own series at step %d" % (o, k + 1))
             prev = cur
+        # ---- a second server life: everything that was searchable and is not deleted must still be searchable (by name and by *)
+        restarted = False
+        if any(is_del(s_["op"]) for s_ in steps):
+            st = steps[-1]
+            rp.restart()
+            restarted = True
+            k = len(steps)
+            for o in orgs:
+                viso, exo = st["vis"][str(o)], st["expand"][str(o)]
+                for e in [x for x in sorted(exo) if x in NAMES or x == "*"]:
+                    want = set((o, i, n) for i in exo[e] for n in viso.get(i, [])) & (prev.get((o, e)) or set())
+                    got = set()
+                    deadline = time.time() + 4.0
+                    while True:
+                        got = rp.search(o, e)[0] or set()
+                        if not (want - got) or time.time() > deadline:
+                            break
+                        time.sleep(0.3)          # recovery of unrotated segments is asynchronous
+                    allowed = set((o, i, n) for i in exo[e] for n in st["ev"][str(o)].get(i, []))
+                    for t in sorted(got - allowed):
+                        key = "C13:leak:search:cross-org:after-restart" if t[0] != o else "C13:delete-index:data-survives:after-restart"
+                        out["viol"].append((key, "after a restart: search over %r for org %d returned marker %s; expression names %s" % (e, o, t, exo[e])))
+                    for t in sorted(want - got):
+                        ing = ingested_at.get(t[2], 10 ** 9)
+                        dels = [s_["op"] for j, s_ in enumerate(steps) if j > ing and is_del(s_["op"]) and not is_del(s_["op"], t[0], t[1])]
+                        cross = [d for d in dels if t[1] in d["names"] and d["org"] != t[0]]
+                        if cross:
+                            out["viol"].append(("C13:delete-index:cross-org:after-restart",
+                                                "event e%d of (org %d, index %s) was returned for %r before the restart and is gone after it; %s had deleted "
+                                                "the same-named index of another organisation" % (t[2], t[0], t[1], e, json.dumps(cross[-1]))))
+                        else:
+                            out["obs"].append("restart-loss: e%d of (org %d, %s) not returned after restart" % (t[2], t[0], t[1]))
         # ---- persistent metadata: a delete must leave the rotated segments of every OTHER (org, index) listed in segmeta.json.
         # If one is missing, a second server life on the same directory decides: the events were searchable before the
         # restart and must still be.  (Restart is only used when segmeta.json already shows the loss, so losses that a
@@ -349,8 +381,9 @@ def replay_history(binary, h):
                         pass
             lost = sorted(k for k in survivors if k not in listed)
             if lost:
-                before = {k: rp.search(k[0], k[1])[0] or set() for k in lost}
-                rp.restart()
+                before = {k: prev.get((k[0], k[1])) or set() for k in lost}
+                if not restarted:
+                    rp.restart()
                 for (o, i) in lost:
                     want = set((o, i, n) for n in survivors[(o, i)]) & before[(o, i)]
                     if not want:
@@ -478,7 +511,9 @@ def run(chk):
           index of the organisation (rotated data counts double);
         - 3 points per additional rotated segment the deleted (organisation, index) owns (lists of several segments are where
           removal loops go wrong);
-        - 1 point for a wildcard in the deleted expression."""
+        - 1 point for a wildcard in the deleted expression;
+        - the continuation: 2 points per later ingest / rotation of another organisation's index of a deleted name, more when
+          that index had a rotated segment before the delete, rotates again and is written to afterwards."""
         best = 0
         rotated = False
         for k, st in enumerate(h["steps"]):
@@ -497,6 +532,19 @@ def run(chk):
                             r += 2 if rotated else 1
                 for i in op["names"]:
                     r += 3 * max(0, before["segs"][str(op["org"])].get(i, 0) - 1)
+                # what happens AFTER the delete to the survivors of the same index name: every later ingest / rotation of
+                # another organisation's index of a deleted name (5 extra points once it has rotated before the delete, rotates
+                # again after it and is written to after that rotation: the life of a segment store that outlives a neighbour)
+                for o, by in before["ev"].items():
+                    for i in op["names"]:
+                        if int(o) == op["org"] or not by.get(i):
+                            continue
+                        later = h["steps"][k + 1:]
+                        rots = [j for j, s_ in enumerate(later) if is_rotate(s_["op"])]
+                        ings = [j for j, s_ in enumerate(later) if is_ingest(s_["op"]) and s_["op"]["org"] == int(o) and s_["op"]["idx"] == i]
+                        r += 2 * (len(rots) + len(ings))
+                        if before["segs"][o].get(i, 0) >= 1 and rots and any(j >= rots[0] for j in ings):
+                            r += 5 + 3 * sum(1 for j in ings if j > rots[0])
                 best = max(best, r)
         return best
 
